@@ -132,6 +132,10 @@ func (c *Collection) GetAndTouchRaw(key string, exp Exp) (val []byte, cas CAS, e
 		}
 		return
 	})
+	if err == nil {
+		// no event is posted for a touch, so arm the expiry timer for the new deadline here
+		c.bucket.expManager.scheduleExpirationAtOrBefore(exp)
+	}
 	traceExit("GetAndTouchRaw", err, "cas=0x%x, val %s", cas, val)
 	return
 }
